@@ -23,7 +23,7 @@ MECHANISMS = ('include', 'import', 'redefine', 'override', 'chained', 'locations
               'uri_mapper_call', 'hint_iter_errors', 'hint_validate', 'fallback_absent', 'fallback_illformed',
               'fallback_404', 'fallback_timeout', 'wildcard_load_namespace', 'xmldocument_parse',
               'hint_to_dict', 'hint_fetch_schema', 'hint_meta_namespace')
-MAIN_KINDS = ('path', 'fileurl', 'remote', 'text_base', 'stream_url')
+MAIN_KINDS = ('path', 'fileurl', 'remote', 'text_base', 'stream_url', 'stream_remote_url')
 
 # (id, spelling template relative to the main document's directory, class of the target, marker id)
 # {W} = world root, {F} = inc.xsd / imp.xsd depending on the mechanism
@@ -307,6 +307,10 @@ class C12(Check):
         elif main_kind == 'text_base':
             source = text
             kw['base_url'] = base_dir
+        elif main_kind == 'stream_remote_url':
+            # what urlopen() returns for a remote URL: a file-like object that carries its origin in .url
+            source = make_stream('buffered', text.encode(), url='http://sim.test/base/sand/main.xsd', seekable=False)
+            peer.pages['http://sim.test/base/sand/main.xsd'] = text.encode()
         else:
             source = make_stream('buffered', text.encode(), url='file://' + main_path)
             kw['base_url'] = base_dir
@@ -474,6 +478,18 @@ class C12(Check):
         if meta_leak:
             violations.append({'signature': dict(sigbase, clause='meta-schema-maps-extended-by-instance-hint'),
                                'detail': {'case': case, 'names': meta_leak[:5]}})
+        # ---- a main source handed over as an open response is classed by the origin it names ------------
+        stream_origin = {'stream_url': 'local', 'stream_remote_url': 'remote'}.get(main_kind)
+        if stream_origin and not mech.startswith(('hint_val', 'hint_to', 'hint_fetch')):
+            origin_denied = allow == 'none' or (allow == 'local' and stream_origin == 'remote') or \
+                (allow == 'remote' and stream_origin == 'local') or (allow == 'sandbox' and stream_origin == 'remote')
+            refused = outcome['exc'] == 'XMLResourceBlocked' or \
+                (outcome['exc'] == 'XMLSchemaValueError' and 'sandbox' in (outcome.get('msg') or ''))
+            if origin_denied and not refused:
+                violations.append({'signature': dict(sigbase, clause='denied-origin-stream-accepted', origin=stream_origin,
+                                                     outcome=outcome['exc'] or 'loaded'),
+                                   'detail': {'case': case, 'outcome': outcome}})
+            counters['stream_main_origin_' + stream_origin] = 1
         # ---- a denied location is reported as blocked / warning / skipped -----------
         if outcome['exc'] and not outcome.get('lib'):
             violations.append({'signature': dict(sigbase, clause='foreign-exception', cls=outcome['exc']),
